@@ -7,7 +7,7 @@ CONSTANTS GeDelimiterSpace,      \* TRUE: '>=' / '<=' leave the delimiter space 
           FieldTrailingSpace     \* TRUE: \pagefield is followed by a visible space (the group's trailing blank)
 
 Letters == {"x", "A", "B", "M", "p"}
-Piece(sym) == CASE sym = "x" -> <<82>> [] sym = "A" -> <<105, 110>> [] sym = "B" -> <<116>>
+Piece(sym) == CASE sym = "x" -> <<101>> [] sym = "A" -> <<105, 110>> [] sym = "B" -> <<116>>
                 [] sym = "M" -> <<109, 97, 116, 104, 98, 98>>
                 [] sym = "p" -> <<112, 97, 103, 101, 110, 117, 109, 98, 101, 114>>
                 [] sym = "1" -> <<49>> [] sym = "sp" -> <<32>> [] sym = "^" -> <<94>> [] sym = "_" -> <<95>>
@@ -22,7 +22,7 @@ Chars(cps) == [j \in 1..Len(cps) |-> Ch(cps[j])]
 Groups == {"G", "E", "H"}
 \* what a reader sees of a group that was looked up together with the command before it (nothing inside is converted)
 GroupEv(sym) == IF sym = "H" THEN <<Kw("in", -1)>> ELSE Chars(Piece(sym))
-Name(sym) == CASE sym = "x" -> "R" [] sym = "A" -> "in" [] sym = "B" -> "t" [] sym = "M" -> "mathbb" [] sym = "p" -> "pagenumber" [] OTHER -> ""
+Name(sym) == CASE sym = "x" -> "e" [] sym = "A" -> "in" [] sym = "B" -> "t" [] sym = "M" -> "mathbb" [] sym = "p" -> "pagenumber" [] OTHER -> ""
 RECURSIVE RunName(_, _, _)
 RunName(s, from, to) == IF from > to THEN "" ELSE Name(s[from]) \o RunName(s, from + 1, to)
 RECURSIVE RunChars(_, _, _)
